@@ -81,11 +81,6 @@ def allowedEnv (r : EnvRead) : Bool :=
   -- (A10) not referenced by any function reachable from the tools or the API.
   || r.reach == "module"
 
-/-- Known finding C06N1: `ConstraintChain` has no `__repr__`, so `str()` of a `HolographicValue` that carries a
-constraint chain embeds a memory address (routing `value_hash`, markdown projection). -/
-def knownFindingEnv (r : EnvRead) : Bool :=
-  r.kind == "identity" && r.file == "core/constraints.py" && r.func == "<class ConstraintChain>" && r.n == 1
-
 /-! ## Disciplines of a summary -/
 
 def writeTargets (S : Summary) : List String :=
@@ -95,8 +90,6 @@ def writeTargets (S : Summary) : List String :=
 def Frame (S : Summary) : Prop := writeTargets S = []
 /-- Every environment read is on the allowed list. -/
 def NoEnv (S : Summary) : Prop := ∀ r ∈ S.envReads, allowedEnv r = true
-/-- …or is the site of the open known finding. -/
-def NoEnvPartial (S : Summary) : Prop := ∀ r ∈ S.envReads, allowedEnv r = true ∨ knownFindingEnv r = true
 /-- No unordered set iteration can reach an output. -/
 def Ordered (S : Summary) : Prop := S.setIters = []
 /-- No await (or thread) inside tool code: each execute() is one atomic step of the event loop. -/
@@ -106,7 +99,6 @@ def PkgFirst (S : Summary) : Prop := S.searchOrder.head? = some "package"
 
 instance (S : Summary) : Decidable (Frame S) := by unfold Frame; infer_instance
 instance (S : Summary) : Decidable (NoEnv S) := by unfold NoEnv; infer_instance
-instance (S : Summary) : Decidable (NoEnvPartial S) := by unfold NoEnvPartial; infer_instance
 instance (S : Summary) : Decidable (Ordered S) := by unfold Ordered; infer_instance
 instance (S : Summary) : Decidable (NoAwait S) := by unfold NoAwait; infer_instance
 instance (S : Summary) : Decidable (PkgFirst S) := by unfold PkgFirst; infer_instance
@@ -180,31 +172,31 @@ instance [DecidableEq Text] (S : Summary) (cfg cfg' : Config Text) (c : Call Arg
 def sameInstall (S : Summary) (cfg cfg' : Config Text) : Prop :=
   ∀ i, S.searchOrder[i]? = some "package" → cfg.dirs i = cfg'.dirs i
 
-/-- The environment values that reach the code for this call: one entry per listed read that is not allowed
-(known-finding sites only for calls inside the finding's class `kf`), one per unordered set iteration. -/
-def leakOf (S : Summary) (kf : Call Args → Bool) (cfg : Config Text) (c : Call Args) : List (String × Nat) :=
-  ((S.envReads.filter (fun r => !allowedEnv r && (!knownFindingEnv r || kf c))).map (fun r => (r.kind, cfg.env r.kind)))
+/-- The environment values that reach the code: one entry per listed read that is not allowed, one per unordered
+set iteration. -/
+def leakOf (S : Summary) (cfg : Config Text) : List (String × Nat) :=
+  ((S.envReads.filter (fun r => !allowedEnv r)).map (fun r => (r.kind, cfg.env r.kind)))
   ++ S.setIters.map (fun _ => ("hashseed", cfg.env "hashseed"))
 
-def observe (S : Summary) (kf : Call Args → Bool) (cfg : Config Text) (st : PState) (c : Call Args) : Obs Args Text :=
-  { args := c.args, schema := resolve S cfg c.schema, state := st, leak := leakOf S kf cfg c }
+def observe (S : Summary) (cfg : Config Text) (st : PState) (c : Call Args) : Obs Args Text :=
+  { args := c.args, schema := resolve S cfg c.schema, state := st, leak := leakOf S cfg }
 
 /-- Only the targets of listed, non-benign writes can change. -/
 def applyWrites (S : Summary) (old new : PState) : PState :=
   fun b => if (writeTargets S).contains b then new b else old b
 
-def step (S : Summary) (kf : Call Args → Bool) (impl : Impl Args Text Data) (cfg : Config Text)
+def step (S : Summary) (impl : Impl Args Text Data) (cfg : Config Text)
     (st : PState) (c : Call Args) : PState × List (Slot Data) :=
-  let o := observe S kf cfg st c
+  let o := observe S cfg st c
   (applyWrites S st (impl.next o), fill cfg.clock (impl.body o))
 
 /-- Serve a history of calls one after the other in one process. -/
-def run (S : Summary) (kf : Call Args → Bool) (impl : Impl Args Text Data) (cfg : Config Text) :
+def run (S : Summary) (impl : Impl Args Text Data) (cfg : Config Text) :
     PState → List (Call Args) → PState × List (List (Slot Data))
   | st, [] => (st, [])
   | st, c :: cs =>
-    let r := step S kf impl cfg st c
-    let rest := run S kf impl cfg r.1 cs
+    let r := step S impl cfg st c
+    let rest := run S impl cfg r.1 cs
     (rest.1, r.2 :: rest.2)
 
 /-- The response to the last call of a history. -/
@@ -229,11 +221,11 @@ def initLoop (init : PState) (calls : List (Call Args)) : Loop Args Text Data :=
   { st := init, phases := calls.map (fun _ => Phase.fresh) }
 
 /-- The event loop gives task `i` its next slot. -/
-def tick (S : Summary) (kf : Call Args → Bool) (impl : Impl Args Text Data) (cfg : Config Text)
+def tick (S : Summary) (impl : Impl Args Text Data) (cfg : Config Text)
     (calls : List (Call Args)) (L : Loop Args Text Data) (i : Nat) : Loop Args Text Data :=
   match calls[i]?, L.phases[i]? with
   | some c, some Phase.fresh =>
-    let o := observe S kf cfg L.st c
+    let o := observe S cfg L.st c
     if S.asyncs.isEmpty then
       { st := applyWrites S L.st (impl.next o), phases := L.phases.set i (Phase.done (fill cfg.clock (impl.body o))) }
     else
@@ -242,22 +234,22 @@ def tick (S : Summary) (kf : Call Args → Bool) (impl : Impl Args Text Data) (c
     { st := applyWrites S L.st (impl.next o), phases := L.phases.set i (Phase.done (fill cfg.clock (impl.body o))) }
   | _, _ => L
 
-def runSched (S : Summary) (kf : Call Args → Bool) (impl : Impl Args Text Data) (cfg : Config Text)
+def runSched (S : Summary) (impl : Impl Args Text Data) (cfg : Config Text)
     (init : PState) (calls : List (Call Args)) (sched : List Nat) : Loop Args Text Data :=
-  sched.foldl (tick S kf impl cfg calls) (initLoop init calls)
+  sched.foldl (tick S impl cfg calls) (initLoop init calls)
 
 /-- Serial reference: serve call `i` completely (one `step`) unless it has been served already. -/
-def serialTick (S : Summary) (kf : Call Args → Bool) (impl : Impl Args Text Data) (cfg : Config Text)
+def serialTick (S : Summary) (impl : Impl Args Text Data) (cfg : Config Text)
     (calls : List (Call Args)) (L : Loop Args Text Data) (i : Nat) : Loop Args Text Data :=
   match calls[i]?, L.phases[i]? with
   | some c, some Phase.fresh =>
-    let r := step S kf impl cfg L.st c
+    let r := step S impl cfg L.st c
     { st := r.1, phases := L.phases.set i (Phase.done r.2) }
   | _, _ => L
 
-def runSerial (S : Summary) (kf : Call Args → Bool) (impl : Impl Args Text Data) (cfg : Config Text)
+def runSerial (S : Summary) (impl : Impl Args Text Data) (cfg : Config Text)
     (init : PState) (calls : List (Call Args)) (order : List Nat) : Loop Args Text Data :=
-  order.foldl (serialTick S kf impl cfg calls) (initLoop init calls)
+  order.foldl (serialTick S impl cfg calls) (initLoop init calls)
 
 /-- The responses of the tasks that have finished. -/
 def responses (L : Loop Args Text Data) : List (Option (List (Slot Data))) :=
